@@ -52,6 +52,18 @@ check("C02", "rocq-core", "proof",
       "(hx-actor): exhaustive single/pair requests with all failure points, random histories.",
       "Trusted: Coq kernel, models Orswot.v + Actor.v, ExtrOcamlBasic + OCaml driver, the Rust executor and its Faulty<MemStore>; handlers are "
       "atomic (one message at a time); the Storage contract for successful_doc_ids is a premise (backends: C17).")
+check("C03", "rocq-core", "proof",
+      "Theorems in coq/core/Properties/C03.v over the transcription of OrSWotSet::merge and NodeVersions::merge in Orswot.v. For any two sets the "
+      "merged entries/tombstones are characterised key by key (the time-sorted log has one entry per key, so the sort cannot influence the "
+      "result - proved, not assumed). For replicas of one history with distinct stamps within one forgiveness period (closed under applying "
+      "operations of the history in any order through any sources and under merging): a merge is the per-key maximum by stamp, hence "
+      "commutative, associative, idempotent, re-merging changes nothing, and replicas that merged each other (directly or through a third) "
+      "answer every lookup identically; the merged set again satisfies the set invariant (safe cut-offs in sync with the merged maxima). "
+      "Partial: the property's alternative premise (gap-free prefixes spanning more than a period) is not proved "
+      "(C03_merge_laws_partial); outside both premises commutativity is refuted by a witness. Tied to orswot.rs by exhaustive/sampled "
+      "replica triples and all six merge expressions (hx-orswot mode=c03).",
+      "Trusted: Coq kernel, model Orswot.v (merge transcribed loop by loop; HashMap iteration order abstracted by gmap and shown irrelevant), "
+      "extraction + driver, Rust executor. Premise (A) only.")
 check("C04", "rocq-core", "proof",
       "Theorems in coq/core/Properties/C04.v over the model Orswot.v of OrSWotSet<N>, for every reachable set, every operation, every arrival "
       "sequence with distinct stamps, every source assignment: the acceptance rule (accepted iff not older than the safe cut-off), step refinement "
@@ -109,6 +121,15 @@ check("C10", "rocq-core", "proof",
       "lexicographic, archive round trip, parse(show t) = t, parse never panics. The model is tied to timestamp.rs by differential execution over a "
       "boundary grid, random stamps and malformed text (hx-ts).",
       "Trusted: Coq kernel, hand-written model Ts.v, ExtrOcamlBasic extraction + OCaml driver, the Rust executor; rkyv's archived u64 modelled as 8 LE bytes.")
+check("C11", "rocq-core", "proof",
+      "Theorems in coq/core/Properties/C11.v over the clock actor of Hlc.v (one task owning the stamp, one FIFO queue = any order-preserving "
+      "merge of the callers' request sequences), for every queue and every wall-clock reading sequence: every reply is greater than every "
+      "earlier reply to any task (so replies are pairwise distinct and each task's own results strictly increase), a request queued after an "
+      "accepted registration of a remote stamp returns a greater stamp, and the actor dies exactly when send fails (drift / exhausted counter "
+      "on a stalled clock) - characterised, not assumed away. All corollaries of the C09 step lemmas. Tied to clock.rs by exact sequential "
+      "comparison and by concurrent runs on current-thread and 4-thread runtimes with a stalled injected wall clock (hx-clock).",
+      "Trusted: Coq kernel, model Hlc.v, extraction + driver, Rust executor, wall-clock hook; flume delivers each sender's requests in order. "
+      "The concurrent runs sample the interleavings tokio produces; the theorems cover all of them.")
 check("C12", "rocq-frame", "proof",
       "Theorems in coq/frame/Properties/C12.v, for frames of every length and every message value: a frame built by to_view_bytes is accepted "
       "and delivers the value sent; one exchange returns exactly the handler's reply or its Status (code, message); every single-bit (indeed "
